@@ -227,6 +227,23 @@ def _value_once(tname, idx):
     cfg3 = p.parse_args(["--x=" + str(ser)])
     if not _eq(cfg3.x, v):
         return Fail("registered:command-line-roundtrip", type=tname, value=repr(v), arg=str(ser), back=repr(cfg3.x))
+    # a parsed value belongs to the caller: what the caller does to it must not show in a later parse of the same text
+    import copy
+
+    reference = copy.deepcopy(v)
+    first = p.parse_args(["--x=" + str(ser)]).x
+    if isinstance(first, bytearray):
+        first.extend(b"!")
+    elif isinstance(first, list):
+        first.append(0)
+    again = p.parse_args(["--x=" + str(ser)]).x
+    fresh = ArgumentParser(exit_on_error=False)
+    fresh.add_argument("--x", type=T)
+    other = fresh.parse_string(p.dump(cfg)).x
+    if not _eq(again, reference) or not _eq(other, reference):
+        return Fail("registered:later-parse-sees-what-the-caller-did-to-an-earlier-result", type=tname, value=repr(reference), again=repr(again), other=repr(other))
+    if isinstance(again, (bytearray, list)) and again is first:
+        return Fail("registered:two-parses-return-the-same-mutable-object", type=tname)
     return True
 
 
